@@ -22,7 +22,11 @@ RULE = ("(i) exhaustive code-point sweep: for every Unicode code point c (0..0x1
         "placed together in one scope of a real document - one model's properties, one operation's parameters in one or several "
         "locations, the component schema names, one string enum's values, one tag's operationIds - plus hostile titles for the "
         "package scope: every generated file must compile, every path component must be a non-keyword identifier, and per scope the "
-        "number of distinct Python names must equal the number of distinct document names unless a diagnostic was issued. "
+        "number of distinct Python names must equal the number of distinct document names unless a diagnostic was issued; "
+        "(iii) complete boundary-pair sweep: each of 36 names at the edge of a renaming rule (leading digit, keyword, builtin, name "
+        "reserved by the generated functions or the model template) next to each distinct one of 22 near-duplicate variants of itself "
+        "(case, delimiters, trailing/leading underscore, field prefix, _query/_header/_path/_cookie suffix), in both orders, as model "
+        "properties, as parameters of one location and of several locations, judged by the same clauses. "
         "An evaluation = one naming call or one generation. Non-trivial = a name needs rewriting or the set has a pair equal after "
         "lower-casing and delimiter stripping. distinct = chunk / (scope, name tuple).")
 ASSUMPTIONS = [
@@ -49,7 +53,7 @@ def sweep(tier):
     for pfx in prefixes:
         for start in range(0, 0x110000, CHUNK):
             out.append({"kind": "sweep", "start": start, "prefix": pfx})
-    return out
+    return out + boundary_pairs()
 
 
 SCOPES = ["model_props", "op_params", "op_params_multi", "schema_names", "enum_values", "tag_ops", "package", "allof_props",
@@ -58,15 +62,49 @@ IDENT_NEAR = [["createdAt", "created_at"], ["userName", "user_name", "UserName"]
               ["HTTPCode", "http_code"], ["fooBar", "foo_bar", "FooBar"], ["size", "Size"]]
 
 
+# names at the edges of the renaming rules: leading digits (need the field prefix), keywords and builtins (need an underscore),
+# the names the generated functions reserve for themselves (renamed to <name>_<location>)
+BOUNDARY_SEEDS = ["3D", "2XL", "1st", "9", "123abc", "2xx", "class", "None", "True", "def", "import", "match", "client", "url", "self",
+                  "kwargs", "body", "headers", "cookies", "params", "response", "int", "str", "list", "type", "id", "json", "data",
+                  "files", "content", "timeout", "field", "additional_properties", "d", "cls", "src_dict"]
+
+
+VARIANTS = [str.upper, str.lower, str.title, lambda s: s.replace("_", "-"), lambda s: s.replace("-", "_"), lambda s: s.replace(" ", "_"),
+            lambda s: s + "_", lambda s: "_" + s, lambda s: s.replace("_", " "), lambda s: s.replace("_", ""), lambda s: "field_" + s,
+            lambda s: s + "1", lambda s: s.capitalize(), lambda s: s.swapcase(), lambda s: s.replace(".", "_"),
+            lambda s: s + "_query", lambda s: s + "_header", lambda s: s + "_path", lambda s: s + "_cookie",
+            lambda s: s.lower() + "_query", lambda s: s + "__", lambda s: s[:1].upper() + s[1:]]
+
+
+def boundary_pairs():
+    """Every boundary seed next to every distinct variant of itself, in the three scopes that have a same-name fallback."""
+    out = []
+    for scope in ("model_props", "op_params", "op_params_multi"):
+        for seed_name in BOUNDARY_SEEDS:
+            seen = {seed_name}
+            for v in VARIANTS:
+                other = v(seed_name)
+                if other in seen or other == "":
+                    continue
+                seen.add(other)
+                for order in ((seed_name, other), (other, seed_name)):
+                    out.append({"kind": "scope", "scope": scope, "names": list(order), "literal": False, "prefix": "field_",
+                                "meta": "none", "boundary_pair": True})
+    return out
+
+
 @st.composite
 def name_set(draw):
     n = draw(st.integers(2, 6))
-    base = draw(st.lists(names.hostile_name(allow_nonident=False), min_size=1, max_size=n))
+    boundary = draw(st.integers(0, 2)) == 0
+    if boundary:
+        n = min(n, 4)
+        base = [draw(st.sampled_from(BOUNDARY_SEEDS))]
+    else:
+        base = draw(st.lists(names.hostile_name(allow_nonident=False), min_size=1, max_size=n))
     out = list(base)
     # near duplicates of drawn names
-    variants = [str.upper, str.lower, str.title, lambda s: s.replace("_", "-"), lambda s: s.replace("-", "_"), lambda s: s.replace(" ", "_"),
-                lambda s: s + "_", lambda s: "_" + s, lambda s: s.replace("_", " "), lambda s: s.replace("_", ""), lambda s: "field_" + s,
-                lambda s: s + "1", lambda s: s.capitalize(), lambda s: s.swapcase(), lambda s: s.replace(".", "_")]
+    variants = VARIANTS
     while len(out) < n:
         src = draw(st.sampled_from(base))
         out.append(draw(st.sampled_from(variants))(src))
@@ -221,9 +259,17 @@ def _flags(ns, prefix="field_"):
 
     if any(n in TEMPLATE_IMPORTS for n in ns):
         f["spelled_like_template_name"] = True   # e.g. 'Union' next to 'UNION': the raw-spelling fallback emits 'Union' itself
+    if any(_snakeish(n) == "additional_properties" for n in ns):
+        f["captures_template_attribute"] = True   # the model template's own attribute of that name replaces the property (C18's root cause)
     if any(re.sub(r"[^\w]", "", n).lstrip("_")[:1].isdigit() for n in ns):
         f["leading_digit"] = True   # after dropping the punctuation / underscores that sanitising strips
     return f
+
+
+def _snakeish(n: str) -> str:
+    """Independent approximation of snake-casing, used for risk flags only."""
+    n = re.sub(r"(?<=[a-z0-9])(?=[A-Z])", "_", n)
+    return re.sub(r"[^0-9a-zA-Z]+", "_", n).strip("_").lower()
 
 
 def names_nfkc_stable(s: str) -> bool:
